@@ -108,8 +108,8 @@ def tryAtt (s : St) (a : Att) (power : Nat → Nat) (total : Nat) (ef : EventFau
   if a.observed then (s, .abort) else
   if !(reaches power (66 * total / 100) a.votes 0) then (s, .nothing) else
   if a.nonce ≠ s.lastObserved + 1 then (s, .abort) else
-  -- the cursor is moved before the remote height is checked: an error there leaves it moved
-  if s.lastEth > a.eth then ({ s with lastObserved := a.nonce }, .abort) else
+  -- the remote height is checked before the cursor moves (since /repo 5e19ceda): a refusal changes nothing
+  if s.lastEth > a.eth then (s, .abort) else
   let e : Effect := { nonce := a.nonce, hash := a.hash, cursorBefore := s.lastObserved }
   ({ s with lastObserved := a.nonce, lastEth := a.eth,
             atts := putAtt s.atts { a with observed := true },
